@@ -35,12 +35,13 @@
      - white space inside a target string after each UTF-16 unit (blanks and ends of line; a %
        inside a string is not a comment, so none there);
      - whether the single target of a range of one code is written bare or as a one-element array
-       (for a longer range the two mean different things: incrementing / indexed), the blanks after
-       [ and before ];
+       (for a longer range the two mean different things: incrementing / indexed);
+     - the white space after [, between the strings of an array and before ]: any, also none
+       (<0041><0042>), line breaks and comments -- an array may run over several lines;
      - the white space inside the CIDSystemInfo dictionary, in front of the file and at its end,
        the size operand of "dict".
    A layout is LINE ORIENTED, like every CMap of the two documents: the tokens of one entry
-   (<code> <target>, <lo> <hi> <target>, <lo> <hi> [ ... ]) stay on one line, separated by blanks
+   (<code> <target>, <lo> <hi> <target>, <lo> <hi> [) stay on one line, separated by blanks
    only, and so do "n begin...", "/CMapName /x def", "/CMapType 2 def" and the trailer line.
    A layout is total: a list that is too short is continued with the default (one space, one
    line feed, lower case). *)
@@ -136,35 +137,36 @@ Record line_lay := mkLineLay {
   l_case2 : list bool;                 (* digits of the second code of a range *)
   l_gap2 : gap0;                       (* between the second code of a bfrange and its target *)
   l_bracket : bool;                    (* the single target of a one-code range as a one-element array (same meaning) *)
-  l_open : gap0;                       (* after [ *)
-  l_tgts : list (gap1 * tlay);         (* per target: the blanks in front of it (not used for the first), its layout *)
-  l_close : gap0;                      (* before ] *)
+  l_open : brk0;                       (* after [ *)
+  l_tgts : list (brk0 * tlay);         (* per target: the white space in front of it (not used for the first), its layout *)
+  l_close : brk0;                      (* before ] *)
   l_end : brk1                         (* the line break after the entry *)
 }.
 Definition sp1 : gap1 := (Space, []).
 Definition nl1 : brk1 := (WEol LF, []).
 Definition line_default : line_lay := mkLineLay [] [Space] [] [Space] false [] [] [] nl1.
-Definition tgt_default : gap1 * tlay := (sp1, []).
+Definition tgt_default : brk0 * tlay := ([WBlank Space], []).
 
 (* <lo> <hi> *)
 Definition range_text (y : line_lay) (lo hi len : N) : bytes :=
   code_text (l_case1 y) len lo ++ blanks (l_gap1 y) ++ code_text (l_case2 y) len hi.
 
-(* the targets of an array after the first one, each with blanks in front *)
-Fixpoint more_targets (ts : list (gap1 * tlay)) (dst : list (list N)) : bytes :=
+(* the targets of an array after the first one, each with its white space in front: the strings
+   delimit themselves, so any white space will do, also none, also line breaks and comments *)
+Fixpoint more_targets (ts : list (brk0 * tlay)) (dst : list (list N)) : bytes :=
   match dst with
   | [] => []
   | t :: dst' =>
     let y := hd tgt_default ts in
-    blanks1 (fst y) ++ target_text (snd y) t ++ more_targets (tl ts) dst'
+    wbytes (fst y) ++ target_text (snd y) t ++ more_targets (tl ts) dst'
   end.
 
 Definition array_text (y : line_lay) (dst : list (list N)) : bytes :=
   match dst with
-  | [] => [x5b] ++ blanks (l_open y) ++ blanks (l_close y) ++ [x5d]     (* not well formed: an empty array *)
+  | [] => [x5b] ++ wbytes (l_open y) ++ wbytes (l_close y) ++ [x5d]     (* not well formed: an empty array *)
   | t :: dst' =>
-    [x5b] ++ blanks (l_open y) ++ target_text (snd (hd tgt_default (l_tgts y))) t
-      ++ more_targets (tl (l_tgts y)) dst' ++ blanks (l_close y) ++ [x5d]
+    [x5b] ++ wbytes (l_open y) ++ target_text (snd (hd tgt_default (l_tgts y))) t
+      ++ more_targets (tl (l_tgts y)) dst' ++ wbytes (l_close y) ++ [x5d]
   end.
 
 Definition cs_line_text (y : line_lay) (x : N * N * N) : bytes :=
